@@ -1,0 +1,37 @@
+//! Verification hooks (compiled only with `--cfg selen_verif`).
+//!
+//! Thread-local switches read by a handful of guarded call sites. With every switch at its
+//! default the guarded code does nothing, so behaviour is unchanged.
+use std::cell::Cell;
+
+thread_local! {
+    static AGENDA_SEED: Cell<Option<u64>> = const { Cell::new(None) };
+    static ROOT_LP_DISABLED: Cell<bool> = const { Cell::new(false) };
+    static FAST_PATH_DISABLED: Cell<bool> = const { Cell::new(false) };
+    static FIRE_AT: Cell<Option<(usize, u8)>> = const { Cell::new(None) };
+    static ROOT_LP_APPLIED: Cell<bool> = const { Cell::new(false) };
+    static FAST_PATH_TAKEN: Cell<bool> = const { Cell::new(false) };
+}
+
+/// H3: pop scheduled propagators in a seeded pseudo-random order instead of FIFO.
+pub fn set_agenda_seed(seed: Option<u64>) { AGENDA_SEED.with(|c| c.set(seed)); }
+pub fn agenda_seed() -> Option<u64> { AGENDA_SEED.with(|c| c.get()) }
+
+/// H4: skip the root LP step / the optimisation fast path (attribution of known findings).
+pub fn set_root_lp_disabled(v: bool) { ROOT_LP_DISABLED.with(|c| c.set(v)); }
+pub fn root_lp_disabled() -> bool { ROOT_LP_DISABLED.with(|c| c.get()) }
+pub fn set_fast_path_disabled(v: bool) { FAST_PATH_DISABLED.with(|c| c.set(v)); }
+pub fn fast_path_disabled() -> bool { FAST_PATH_DISABLED.with(|c| c.get()) }
+
+/// Records which path answered (reset by the caller before each solve).
+pub fn note_root_lp_applied() { ROOT_LP_APPLIED.with(|c| c.set(true)); }
+pub fn note_fast_path_taken() { FAST_PATH_TAKEN.with(|c| c.set(true)); }
+pub fn take_path_flags() -> (bool, bool) {
+    let r = (ROOT_LP_APPLIED.with(|c| c.replace(false)), FAST_PATH_TAKEN.with(|c| c.replace(false)));
+    r
+}
+
+/// H6: check limits on every engine iteration and let the `k`-th check (1-based) find the
+/// timeout (`kind == 0`) or the memory limit (`kind == 1`) exceeded.
+pub fn set_fire_at(v: Option<(usize, u8)>) { FIRE_AT.with(|c| c.set(v)); }
+pub fn fire_at() -> Option<(usize, u8)> { FIRE_AT.with(|c| c.get()) }
